@@ -199,6 +199,13 @@ func runTick(c TickCase) (ev.Info, error) {
 		return info, fmt.Errorf("harness: assemble: %v", err)
 	}
 	op := env.Op
+	sm, ok := op.ScheduleManager.(interface {
+		VerifFire(string) bool
+		VerifCronEntryCount() int
+	})
+	if !ok {
+		return info, fmt.Errorf("harness: schedule manager has no verif accessors")
+	}
 	// queues exist but no worker runs: tasks stay where the events handler puts them
 	for _, qn := range []string{"main", "q1", "q2"} {
 		op.TaskQueues.NewNamedQueue(qn, func(task.Task) queue.TaskResult { return queue.TaskResult{Status: queue.Success} })
@@ -232,7 +239,25 @@ func runTick(c TickCase) (ev.Info, error) {
 			}
 		case "tick":
 			before := allQueues()
-			env.Tick(st.Crontab)
+			// the tick goes through the schedule manager: the job registered for the crontab is run once,
+			// exactly as the cron library does at its time; nothing fires when no job is registered
+			want1 := false
+			for hi, h := range c.Hooks {
+				if enabled[hi] {
+					for _, sc := range h.D.Schedules {
+						if sc.Crontab == st.Crontab {
+							want1 = true
+						}
+					}
+				}
+			}
+			fired := sm.VerifFire(st.Crontab)
+			if fired != want1 {
+				return info, fmt.Errorf("step %d: crontab %q registered in the schedule manager = %v, but enabled bindings with that crontab exist = %v", step, st.Crontab, fired, want1)
+			}
+			if n, wantN := sm.VerifCronEntryCount(), len(distinctEnabled(c, enabled)); n != wantN {
+				return info, fmt.Errorf("step %d: %d cron entries are registered, %d distinct crontabs have enabled bindings", step, n, wantN)
+			}
 			flush()
 			after := allQueues()
 			var got, want []string
@@ -285,4 +310,16 @@ const ruleTick = "1-4 generated hooks (real --config through the scripted hook, 
 func TestTicks(t *testing.T) {
 	_ = os.Getenv
 	ev.Main(t, ev.Spec[TickCase]{Property: "C11", Part: "ticks", Rule: ruleTick, Gen: genTick, Run: runTick})
+}
+
+func distinctEnabled(c TickCase, enabled map[int]bool) map[string]bool {
+	m := map[string]bool{}
+	for hi, h := range c.Hooks {
+		if enabled[hi] {
+			for _, sc := range h.D.Schedules {
+				m[sc.Crontab] = true
+			}
+		}
+	}
+	return m
 }
